@@ -556,6 +556,7 @@ func init() {
 				return m
 			}
 			edges := map[string]map[string]string{}
+			recursive := map[string]string{}
 			addEdge := func(a, b, where string) {
 				if a == b {
 					return
@@ -586,6 +587,12 @@ func init() {
 					}
 					for h := range held {
 						for _, g := range got {
+							if h == g {
+								if recursive[h] == "" {
+									recursive[h] = c.P.Pos(ci.Pos())
+								}
+								continue
+							}
 							addEdge(h, g, c.P.Pos(ci.Pos()))
 						}
 					}
@@ -631,6 +638,17 @@ func init() {
 				}
 			}
 			sort.Strings(es)
+			var rk []string
+			for k := range recursive {
+				rk = append(rk, k)
+			}
+			sort.Strings(rk)
+			for _, k := range rk {
+				c.addAt(Violated, "module / recursive-lock "+k, recursive[k], "%s is acquired again (directly or through a callee) while it is already held: a second RLock parks behind a writer that is waiting for the first RLock - getters, rule updates and then every Entry on the module hang", k)
+			}
+			if len(rk) == 0 {
+				c.Hold("module / no-recursive-lock", 0, "no mutex is re-acquired while held")
+			}
 			if found {
 				c.Violate("module / lock-order", 0, "lock-order cycle: %s", strings.Join(cyc, " -> "))
 			} else {
